@@ -48,6 +48,10 @@ pub enum Fault {
     /// process (it installs its own process-global panic hook), then the processing function
     /// panics on the first item >= j
     FnPanicAfterTrainBpe { j: usize },
+    /// two loaders in one process (e.g. training and validation): pipe A is the observed one, a
+    /// second threaded pipe B is created before (order 1) or after (order 0, 2) it and dropped
+    /// (order 0, 1) or kept alive (order 2) before A's processing function panics on the first item >= j
+    FnPanicTwoPipes { j: usize, order: u8 },
 }
 
 #[derive(Serialize, Deserialize, Clone, Debug)]
@@ -86,6 +90,15 @@ pub fn grid() -> Vec<(Shape, u8, Option<usize>, Fault)> {
                 }
             }
         }
+    }
+    // ---- many items consumed by a slow consumer before the drop: look-ahead must not grow with
+    //      the number of consumed items either
+    for k in [60usize, 150] {
+        for w in [2u8, 4] {
+            g.push((Shape::Pipe, w, None, Fault::Drop { k, idle: 40 }));
+            g.push((Shape::PipeBuffered(1), w, None, Fault::Drop { k, idle: 40 }));
+        }
+        g.push((Shape::Buffered(2), 0, None, Fault::Drop { k, idle: 40 }));
     }
     // ---- the real InferenceLoader: drop after k batches, upstream panic
     for k in [0usize, 1, 3] {
@@ -132,6 +145,15 @@ pub fn grid() -> Vec<(Shape, u8, Option<usize>, Fault)> {
                     g.push((Shape::PipeBuffered(1), w, Some(j + d), Fault::FnPanic { j, stall }));
                 }
                 g.push((Shape::Pipe, w, Some(j + d), Fault::SrcPanic { j, stall: 0 }));
+            }
+        }
+    }
+    // ---- a second pipe in the same process, created and dropped around the observed one
+    for j in [0usize, 4] {
+        for order in 0..3u8 {
+            for w in [1u8, 2, 4] {
+                g.push((Shape::Pipe, w, None, Fault::FnPanicTwoPipes { j, order }));
+                g.push((Shape::PipeBuffered(1), w, Some(40), Fault::FnPanicTwoPipes { j, order }));
             }
         }
     }
@@ -225,6 +247,7 @@ impl Scenario for C09 {
             Fault::Drop { k, idle } => k as u64 + (idle > 0) as u64,
             Fault::FnPanic { j, stall } | Fault::SrcPanic { j, stall } => j as u64 + (stall > 0) as u64,
             Fault::FnPanicAfterTrainBpe { j } => j as u64 + 3,
+            Fault::FnPanicTwoPipes { j, order } => j as u64 + 3 + order as u64,
         };
         f + self.w as u64
             + match self.shape {
@@ -257,6 +280,11 @@ impl Scenario for C09 {
             Fault::FnPanicAfterTrainBpe { j } => {
                 if j > 0 {
                     push(&|c| c.fault = Fault::FnPanicAfterTrainBpe { j: j - 1 });
+                }
+            }
+            Fault::FnPanicTwoPipes { j, order } => {
+                if j > 0 {
+                    push(&|c| c.fault = Fault::FnPanicTwoPipes { j: j - 1, order });
                 }
             }
             Fault::FnPanic { j, stall } => {
@@ -317,6 +345,7 @@ impl Scenario for C09 {
             Fault::Drop { .. } => "drop",
             Fault::FnPanic { .. } => "fn-panic",
             Fault::FnPanicAfterTrainBpe { .. } => "fn-panic-after-train_bpe",
+            Fault::FnPanicTwoPipes { .. } => "fn-panic-with-second-pipe",
             Fault::SrcPanic { .. } => "src-panic",
         };
         format!("{}/{}/{}", v.class, shape, fault)
@@ -324,7 +353,12 @@ impl Scenario for C09 {
 
     fn execute(&self, plan: &Plan) -> Outcome {
         let mut spec = ProcSpec::new(self.mode.to_mode(), derive(self.run_seed, 100), derive(self.run_seed, 200));
-        spec.step_cap = 30_000;
+        // generous: a correct run needs a few hundred decisions plus ~100 per consumed item
+        let consumed = match self.fault {
+            Fault::Drop { k, .. } => k as u64,
+            _ => 0,
+        };
+        spec.step_cap = env_u64("VERIF_C09_CAP", 60_000 + 2_000 * consumed);
         if let Plan::Replay { traces, strict } = plan {
             spec = spec.replaying(traces.first().cloned().unwrap_or_default(), *strict);
         }
@@ -358,7 +392,16 @@ impl Scenario for C09 {
             let armed = Arc::new(std::sync::atomic::AtomicBool::new(false));
             let armed2 = armed.clone();
             let late_panic_from = match sc.fault {
-                Fault::FnPanicAfterTrainBpe { j } => Some(j as u64),
+                Fault::FnPanicAfterTrainBpe { j } | Fault::FnPanicTwoPipes { j, .. } => Some(j as u64),
+                _ => None,
+            };
+            // second loader created *before* the observed one
+            let other = |n: u64| -> Box<dyn Iterator<Item = u64>> {
+                let g: Pipeline<u64, u64> = Arc::new(|x: u64| x + 1);
+                Box::new((0..n).pipe(g, 2))
+            };
+            let mut early_other = match sc.fault {
+                Fault::FnPanicTwoPipes { order: 1, .. } => Some(other(6)),
                 _ => None,
             };
             let src_panic_at = match sc.fault {
@@ -477,6 +520,10 @@ impl Scenario for C09 {
                             Some(v) => {
                                 rt::log(Kind::Recv, got as u64, v);
                                 got += 1;
+                                if k >= 40 {
+                                    // slow consumer: the workers are always ahead
+                                    rt::sleep_ticks(3);
+                                }
                             }
                             None => break,
                         }
@@ -488,6 +535,29 @@ impl Scenario for C09 {
                     rt::log(Kind::Drop, got as u64, 0);
                     rt::log(Kind::Fault, 1, got as u64);
                     drop(it);
+                    rt::wait_threads_exit();
+                }
+                Fault::FnPanicTwoPipes { order, .. } => {
+                    let mut late_other = if order != 1 { Some(other(6)) } else { None };
+                    for o in [&mut early_other, &mut late_other].into_iter().flatten() {
+                        let _ = o.next();
+                        let _ = o.next();
+                    }
+                    if order != 2 {
+                        // the second loader goes away (e.g. validation finished) before the failure
+                        drop(early_other.take());
+                        drop(late_other.take());
+                        rt::log(Kind::Note, 2, order as u64);
+                    }
+                    armed.store(true, std::sync::atomic::Ordering::SeqCst);
+                    let mut got = 0usize;
+                    while let Some(v) = it.next() {
+                        rt::log(Kind::Recv, got as u64, v);
+                        got += 1;
+                    }
+                    rt::log(Kind::RecvEnd, got as u64, 0);
+                    drop(it);
+                    drop(late_other);
                     rt::wait_threads_exit();
                 }
                 Fault::FnPanicAfterTrainBpe { .. } => {
@@ -525,6 +595,7 @@ impl Scenario for C09 {
         stats.absorb_proc(&r);
         stats.param("w", self.w as i64);
         stats.param("cell", self.cell as i64);
+        stats.probe_max("max_decisions_in_one_run", r.decisions);
         let violation = self.judge(&r, &mut stats);
         Outcome {
             violation,
@@ -662,8 +733,14 @@ impl C09 {
                 }
                 None
             }
-            Fault::FnPanic { j, .. } | Fault::SrcPanic { j, .. } | Fault::FnPanicAfterTrainBpe { j } => {
+            Fault::FnPanic { j, .. }
+            | Fault::SrcPanic { j, .. }
+            | Fault::FnPanicAfterTrainBpe { j }
+            | Fault::FnPanicTwoPipes { j, .. } => {
                 let is_src = matches!(self.fault, Fault::SrcPanic { .. });
+                if matches!(self.fault, Fault::FnPanicTwoPipes { .. }) {
+                    stats.fault("second_pipe_in_the_same_process");
+                }
                 if matches!(self.fault, Fault::FnPanicAfterTrainBpe { .. }) {
                     stats.fault("other_component_replaced_the_panic_hook");
                 }
